@@ -128,6 +128,7 @@ func C03(c *core.Ctx) {
 		}
 		runMember(c, mb, rules, budget, func(w *fam.World, fm *fam.FileModel) []fam.Issue {
 			var keep []fam.Issue
+			keep = append(keep, unionTypeIssues(mb.name, fm)...)
 			for _, is := range checkRoot(w, fm) {
 				// length limits are C07's business; here only the type mapping and the null-type branches count
 				if is.Rule == "A-MAP" || is.Rule == "A-TAG" || strings.Contains(is.Construct, "null") || strings.Contains(is.Msg, "type null") {
